@@ -1,4 +1,4 @@
-import TypstyleModel.Model.Doc
+import TypstyleModel.Model.Twin
 import TypstyleModel.Model.Syntax
 import TypstyleModel.Model.Text
 /-! Configuration, context and the model's monad. -/
@@ -13,9 +13,20 @@ structure Config where
   reorder : Bool := false
 deriving Repr
 
-/-- What the printer closes over: the configuration and the (unmodelled) display-width function. -/
+/-- The part of the configuration the printer can see: everything except the indent unit.  The
+printer builds the document family for *all* units at once (`Twin.Doc`); the unit is applied at the
+very end (`printDoc`), so that no decision of the printer can depend on it (C12). -/
+structure PConfig where
+  maxWidth : Nat := 80
+  blankUpper : Nat := 2
+  reorder : Bool := false
+deriving Repr
+
+def Config.toP (c : Config) : PConfig := { maxWidth := c.maxWidth, blankUpper := c.blankUpper, reorder := c.reorder }
+
+/-- What the printer closes over: the (unit-free) configuration and the (unmodelled) display-width function. -/
 structure Env where
-  cfg : Config
+  cfg : PConfig
   wd : String → Nat
 
 inductive LMode | markup | code | codeCont | math deriving DecidableEq, Repr
@@ -120,11 +131,13 @@ def enter (k : Entry) (id : Nat) : M Unit :=
       · exact hs.2 v hv'
     · cases h⟩
 
-def Env.tok (e : Env) (s : String) : Doc := mkText e.wd .tok s
-def Env.syn (e : Env) (s : String) : Doc := mkText e.wd .syn s
-def Env.soft (e : Env) (s : String) : Doc := mkText e.wd .soft s
+def Env.tok (e : Env) (s : String) : Twin.Doc := Twin.mkText e.wd .tok s
+def Env.syn (e : Env) (s : String) : Twin.Doc := Twin.mkText e.wd .syn s
+def Env.soft (e : Env) (s : String) : Twin.Doc := Twin.mkText e.wd .soft s
+/-- One line of a comment, as a plain document (comments never contain indentation steps). -/
 def Env.cmt (e : Env) (s : String) : Doc := mkText e.wd .comment s
-def Env.verb (e : Env) (s : String) : Doc := mkText e.wd .verbatim s
+def Env.cmtT (e : Env) (s : String) : Twin.Doc := Twin.mkText e.wd .comment s
+def Env.verb (e : Env) (s : String) : Twin.Doc := Twin.mkText e.wd .verbatim s
 
 /-- `Config::chain_width`: `(max_width as f32 * 0.6f32) as usize`, exact integer model of the f32 rounding. -/
 def round24 (m : Nat) : Nat × Nat :=
